@@ -13,6 +13,34 @@ from .common import (ALL_KINDS, KIND_ENUM, short, inst, live_funcs, kind_switche
 
 
 # --------------------------------------------------------------------------------------------
+# The functions whose switch over PyTreeKind dispatches work that every kind needs (produce /
+# consume children, metadata, entries, text): a kind that reaches `default` there is silently
+# mishandled.  Enumerated from the tree and confirmed by reading; a switch anywhere else is
+# reported as information only.
+K1_DISPATCHERS = {
+    'PyTreeIter::NextImpl': 'pushes the children of every container kind',
+    'PyTreeSpec::AccessorsImpl': 'typed path entries per kind',
+    'PyTreeSpec::BroadcastToCommonSuffixImpl': 'kind x kind compatibility',
+    'PyTreeSpec::Entries': 'entries per kind',
+    'PyTreeSpec::Entry': 'entry per kind',
+    'PyTreeSpec::FlattenIntoImpl': 'children and metadata per kind',
+    'PyTreeSpec::FlattenIntoWithPathImpl': 'children, metadata and path entries per kind',
+    'PyTreeSpec::FlattenUpTo': 'matching per kind',
+    'PyTreeSpec::FromPickleable': 'metadata validation per kind',
+    'PyTreeSpec::GetPathEntryType': 'entry class per kind',
+    'PyTreeSpec::GetType': 'type per kind',
+    'PyTreeSpec::HashValueImpl': 'hash contribution per kind',
+    'PyTreeSpec::IsPrefix': 'matching per kind',
+    'PyTreeSpec::MakeFromCollectionImpl': 'children and metadata per kind',
+    'PyTreeSpec::MakeNode': 'rebuilds every container kind',
+    'PyTreeSpec::NodeKindToString': 'name per kind',
+    'PyTreeSpec::PathsImpl': 'path entries per kind',
+    'PyTreeSpec::ToStringImpl': 'text per kind',
+    'PyTreeSpec::UnflattenImpl': 'stack discipline per kind',
+    'PyTreeSpec::WalkImpl': 'callback placement per kind',
+}
+
+
 @rule('K1', floor=20, title='every switch over PyTreeKind names all enumerators; default only throws InternalError')
 def k1(ctx):
     prog = ctx.cxx()
@@ -20,6 +48,7 @@ def k1(ctx):
     ctx.require(kinds, 'enum optree::PyTreeKind not found')
     ctx.require(len(kinds) >= 11, 'PyTreeKind has %d enumerators, expected at least 11' % len(kinds))
     seen_src = set()
+    found = set()
     for f in live_funcs(prog):
         for i, sw in enumerate(kind_switches(f)):
             arms, groups = switch_arms(sw)
@@ -27,6 +56,16 @@ def k1(ctx):
             site = '%s#switch%d' % (short(f), i)
             missing = [k for k in kinds if k not in labels]
             seen_src.add((f.file, sw.line))
+            owner = f if not f.is_lambda else prog.funcs.get(f.parent, f)
+            if short(owner) not in K1_DISPATCHERS:
+                # a switch that is not one of the reviewed per-kind dispatchers (e.g. one that
+                # selects a few kinds and deliberately ignores the rest) is listed, not judged
+                ctx.info(site + '/unreviewed', '%s: switch over PyTreeKind outside the reviewed '
+                         'dispatcher table (names %d of %d kinds%s)'
+                         % (inst(f), len(labels), len(kinds), ', has default' if 'default' in arms else ''),
+                         sw.loc)
+                continue
+            found.add(short(owner))
             ctx.check(site + '/exhaustive', not missing,
                       '%s: switch names all %d PyTreeKind enumerators' % (inst(f), len(kinds)),
                       '%s: switch over PyTreeKind does not name %s (they fall to default)'
@@ -41,6 +80,9 @@ def k1(ctx):
                           '%s: default arm does something other than throwing InternalError: %s'
                           % (inst(f), [b.text(3) for b in bad]), sw.loc)
     ctx.analysed['kind_switch_sites_source_level'] = len(seen_src)
+    gone = sorted(set(K1_DISPATCHERS) - found)
+    ctx.require(not gone, 'reviewed per-kind dispatchers without a PyTreeKind switch (renamed or '
+                'restructured - re-review the table K1_DISPATCHERS): %s' % gone)
 
 
 def _default_own(sw):
